@@ -38,6 +38,8 @@ import (
 
 var watchdog = watchdogFromEnv()
 
+const stallWait = 300 * time.Millisecond
+
 type config struct {
 	warnCap int // -1: nil channel; >= 1: buffered with that capacity
 	handler bool
@@ -155,6 +157,8 @@ type run struct {
 	saltsSent    []int64
 	plainBase    int // plain frames at the end of the set-up
 	lastClass    string
+	msgClass     string // class of the message the receive loop is working on
+	nextCloseSid int64
 	profile      string
 }
 
@@ -237,6 +241,7 @@ func (r *run) addCaller() *callerState {
 // Returns false if the key exchange has to be repeated (corner cases that are C06's subject).
 func (r *run) connect(idx, attempt int) bool {
 	r.sc = csched.New()
+	r.rxSeen = map[string]bool{}
 	r.sc.PassThrough = func(actor, point string) bool {
 		if actor == "main" {
 			return true
@@ -671,9 +676,24 @@ func (r *run) doStep(actor string) {
 	clk := "0"
 	switch p.Point {
 	case "deliver", "notify":
-		r.note(p.Point + ":" + r.lastClass)
+		r.note(p.Point + ":" + r.msgClass)
+		orphan := r.ownerOf(p.ID) == nil
 		r.sc.Release(actor)
-		a1 := r.await(actor)
+		var a1 csched.Arrival
+		if orphan {
+			// nobody can take this send: the stall is expected, a short wait is enough to see it
+			var err error
+			a1, err = r.sc.Await(actor, stallWait)
+			if err != nil {
+				st := ""
+				if e, ok := err.(*csched.ErrStuck); ok {
+					st = e.Stack
+				}
+				panic(stuck{what: actor, stack: st})
+			}
+		} else {
+			a1 = r.await(actor)
+		}
 		items = append(items, r.onArrival(actor, a1)...)
 		var waiting []string
 		for _, c := range r.callers {
@@ -708,14 +728,17 @@ func (r *run) doStep(actor string) {
 		}
 		if isRx && p.Point == "read" {
 			if r.srv.Sent() > r.reads {
-				r.note("read:" + r.topClass(r.reads))
+				r.msgClass = r.topClass(r.reads)
+				r.note("read:" + r.msgClass)
 				r.reads++
 			} else {
+				r.msgClass = "eof"
 				r.note("read:eof")
 			}
 		}
 		if isRx && p.Point == "dispatch" {
-			r.note("dispatch:" + r.classOf(p.ID))
+			r.msgClass = r.classOf(p.ID)
+			r.note("dispatch:" + r.msgClass)
 		}
 		r.sc.Release(actor)
 		ar := r.await(actor)
@@ -818,6 +841,15 @@ func (r *run) resolve(ref string) (int64, *callState, bool) {
 	}
 	id, _ := strconv.ParseInt(ref, 10, 64)
 	return id + r.base, nil, false
+}
+
+func (r *run) wasRejected(id int64) bool {
+	for _, rj := range r.rejections {
+		if rj.id == id {
+			return true
+		}
+	}
+	return false
 }
 
 // serviceObjects: every MTProto service constructor the client has no case for, and a few API
@@ -939,6 +971,9 @@ func (r *run) build(b *bodySpec) ([]byte, string, string, bool) {
 			failing = true
 		case cs.done || cs.answers > 0:
 			class = "rpc_result-already-answered"
+			failing = true
+		case r.wasRejected(id):
+			class = "rpc_result-rejected-id"
 			failing = true
 		}
 		if cs != nil && latest {
@@ -1185,14 +1220,10 @@ func (r *run) finish() {
 	for tok, fs := range byToken {
 		for i := 0; i+1 < len(fs); i++ {
 			rj, wasRejected := rejected[fs[i].MsgID]
-			if !wasRejected {
+			if !wasRejected || fs[i+1].Index < rj.atFrames {
 				r.viol("C11", "salt-rotation:accepted-request-resent",
-					fmt.Sprintf("the request with token %d was written again (frame %d after frame %d) although the server never rejected the earlier frame", tok, fs[i+1].Index, fs[i].Index))
+					fmt.Sprintf("the request with token %d was written again (frame %d after frame %d) although the server had not rejected the earlier frame", tok, fs[i+1].Index, fs[i].Index))
 				continue
-			}
-			if fs[i+1].Index < rj.atFrames {
-				r.viol("C11", "salt-rotation:resent-before-rejection",
-					fmt.Sprintf("the request with token %d was written again before the server rejected it", tok))
 			}
 			good := false
 			for _, s := range r.saltsSent[rj.order:] {
@@ -1352,5 +1383,5 @@ func watchdogFromEnv() time.Duration {
 	if v, err := strconv.Atoi(os.Getenv("VERIF_WATCHDOG_MS")); err == nil && v > 0 {
 		return time.Duration(v) * time.Millisecond
 	}
-	return 3 * time.Second
+	return 8 * time.Second
 }
